@@ -88,6 +88,48 @@ def jacobian_multiply_step(rep, tier):
     rp = {"kind": "c18_multiply", "args": {}}
     real = sp.jacobian_multiply
     seen = {"paths": 0}
+    from .c08 import _has_while
+    if _has_while(real, also_for=True):
+        # ---- iterative form: the recursion contract does not apply.  Every scalar in [-2^5, 2^6) is its own path (bounded
+        # unrolling on the exponent model), plus ground instances of the property's scalar list; larger symbolic scalars are
+        # reported as not covered.
+        def dbl_(b):
+            return JP(as_jp(b, N).k * 2, N)
+
+        def add_(b, c):
+            return JP(as_jp(b, N).k + as_jp(c, N).k, N)
+
+        def run_it(ctx):
+            n = SymZ.var("n", -32, 63)
+            with world.patched(sp, jacobian_double=dbl_, jacobian_add=add_):
+                r = real(JP(1, N), n)
+            return n, r
+
+        def on_it(pth):
+            rep.paths += 1
+            mdl = lambda m: {"kind": "c18_multiply", "args": {"n": str(m.eval(z3.Int("n"), model_completion=True)) if m is not None else "5"}}
+            if pth.kind != "ret":
+                g, m = pth.ctx.satisfiable()
+                if g != "unsat":
+                    rep.fail("jacobian_multiply raised %r for some n in [-32, 63]" % (pth.value,), mdl(m))
+                return
+            n, r = pth.value
+            g, m = pth.ctx.prove((as_jp(r, N).k.t - n.t) % N == 0)
+            require(rep, g, "jacobian_multiply(B, n) = (n mod N) * B (iterative form unrolled, every n in [-32, 63])", pth.decisions, mdl(m))
+        core.explore(run_it, on_path=on_it, ctx_kwargs=dict(max_decisions=80), max_paths=2000)
+        with core.Ctx() as gctx:
+            for n0 in (-1, -2, -N, -N - 5, N - 1, N, N + 1, 2 * N + 7, 2 ** 255, 2 ** 256 + 1, 2 ** 512 - 3, -(2 ** 300)):
+                try:
+                    with world.patched(sp, jacobian_double=dbl_, jacobian_add=add_):
+                        r0 = real(JP(1, N), n0)
+                    ok0 = gctx.prove((as_jp(r0, N).k.t - z3.IntVal(n0)) % N == 0)[0]
+                except core.Unsupported as e_:
+                    rep.unknown("jacobian_multiply on the model for n = %d: %s" % (n0, e_))
+                    continue
+                require(rep, ok0, "jacobian_multiply(B, n) = (n mod N) * B on the exponent model for n = %s (ground)" % (str(n0) if abs(n0) < 10 ** 6 else "%d bits, sign %d" % (n0.bit_length(), (n0 > 0) - (n0 < 0))), None,
+                        {"kind": "c18_multiply", "args": {"n": str(n0)}})
+        rep.unknown("jacobian_multiply is iterative: decided for every n in [-32, 63] and the listed ground scalars only (no induction over the loop)")
+        return
 
     def run(ctx):
         n = SymZ.var("n")
